@@ -41,7 +41,7 @@ PROPS['C20'] = {
 NOT_APPLICABLE = {}
 
 PROPS['C02'] = {
-    'modules': ['c02', ('c18', ['R18.3']), ('c05', ['A5.8']), ('c03', ['R3.6', 'R3.10', 'R3.11']), ('c11', ['R11.4'])],
+    'modules': ['c02', ('c18', ['R18.3']), ('c05', ['A5.8']), ('c03', ['R3.6', 'R3.10', 'R3.11']), ('c11', ['R11.4']), ('c04', ['K5']), ('c10', ['R10.2'])],
     'level': 'other',
     'quick_configs': ['default'],
     'thorough_configs': ALL,
@@ -149,7 +149,7 @@ PROPS['C09'] = {
 }
 
 PROPS['C13'] = {
-    'modules': ['c13'],
+    'modules': ['c13', ('c11', ['R11.1'])],
     'level': 'proof',
     'quick_configs': ['default'],
     'thorough_configs': ALL,
@@ -237,7 +237,7 @@ PROPS['C12'] = {
 }
 
 PROPS['C05'] = {
-    'modules': ['c05', ('c03', ['R3.8', 'R3.7b', 'R3.11']), ('c11', ['R11.4'])],
+    'modules': ['c05', ('c03', ['R3.8', 'R3.7b', 'R3.11']), ('c11', ['R11.4', 'R11.1']), ('c04', ['K5'])],
     'level': 'other',
     'quick_configs': ['default'],
     'thorough_configs': ALL,
@@ -476,7 +476,7 @@ PROPS['C10'] = {
 }
 
 PROPS['C03'] = {
-    'modules': ['c03', ('c05', ['A5.8']), ('c10', ['R10.4']), ('c15', ['N7']), ('c04', ['K5']), ('c11', ['R11.4']), ('retry', ['R9.9'])],
+    'modules': ['c03', ('c05', ['A5.8']), ('c10', ['R10.4', 'R10.2']), ('c15', ['N7']), ('c04', ['K5']), ('c11', ['R11.4']), ('retry', ['R9.9'])],
     'level': 'other',
     'quick_configs': ['default'],
     'thorough_configs': ALL,
@@ -502,7 +502,7 @@ PROPS['C03'] = {
 }
 
 PROPS['C04'] = {
-    'modules': ['c04', 'fattype', ('c14', ['P2', 'P3']), ('siblings', ['SB1', 'SB2']), ('c11', ['R11.4']), ('bits', ['K6'])],
+    'modules': ['c04', 'fattype', ('c14', ['P2', 'P3']), ('siblings', ['SB1', 'SB2']), ('c11', ['R11.4']), ('bits', ['K6']), ('c08', ['X2'])],
     'level': 'other',
     'quick_configs': ['default'],
     'thorough_configs': ALL,
@@ -530,7 +530,7 @@ PROPS['C04'] = {
 }
 
 PROPS['C11'] = {
-    'modules': ['c11', ('c10', ['R10.4', 'R10.2']), ('c03', ['R3.8']), ('c20', ['W1', 'W4'])],
+    'modules': ['c11', ('c10', ['R10.4', 'R10.2']), ('c03', ['R3.8']), ('c20', ['W1', 'W4']), ('c08', ['X2'])],
     'level': 'other',
     'quick_configs': ['default'],
     'thorough_configs': ALL,
